@@ -107,13 +107,17 @@ def run(pid: str, tier: str, seed: int, replay: str | None) -> int:
     except Exception as ex:  # noqa: BLE001
         tb = traceback.extract_tb(ex.__traceback__)
         in_impl = [f for f in tb if str(core.REPO) in f.filename]
-        if not in_impl and not isinstance(ex, AttributeError):
+        from .wire import Refused
+        if not in_impl and not isinstance(ex, (AttributeError, Refused)):
             traceback.print_exc()
             print(f"INFRASTRUCTURE property={pid}: harness crashed", file=sys.stderr)
             return 2
         # the exception came out of the implementation (or an attribute the harness reads is gone):
         # the tie between model and code can no longer be made - reported as a broken correspondence
         where = f"{in_impl[-1].filename}:{in_impl[-1].lineno} in {in_impl[-1].name}" if in_impl else "harness glue"
+        if isinstance(ex, Refused) and pid == "C14":
+            # a point that supplies a legal variable name cannot even be written: C14's own statement, with the point as replay
+            rep.violation(f"a coordinate for a legal variable name is refused: {ex}", {"refused": str(ex)})
         rep.corr_break(f"the harness could not observe the implementation: {type(ex).__name__}: {ex} ({where})",
                        {"traceback": traceback.format_exc()[-1500:]})
         if not rep.lean:
